@@ -148,6 +148,7 @@ FailHook(s, k) ==   \* reload failure: only the refresh time may move
 
 O0 == [ok |-> 0, val |-> -1, err |-> "", panic |-> 0, res |-> {}, ents |-> {}, ch |-> 0, rrs |-> {},
        num |-> 0, cbs |-> <<>>, loads |-> {}, mw |-> <<>>,
+       gated |-> FALSE,     \* TRUE: every phase is the completion of one loader invocation and starts after it
        early |-> FALSE,     \* TRUE: the in-flight loads of every phase start before the first phase completes
        cmp |-> {"ok", "val", "err", "panic", "cbs", "loads"}]   \* result fields that are compared
 R(s, o) == [s |-> s, o |-> o]
@@ -271,7 +272,7 @@ DoGet(s, a) ==
        ELSE IF g.hit
        THEN \* serve the value cached at that moment, hand a reload to the executor (synchronous here)
             LET f == Finish(g.s, k, a.ld, a.v, "refresh")
-            IN R(f.s, [O0 EXCEPT !.ok = 1, !.val = s.ent[k].v, !.mw = <<f.ph>>,
+            IN R(f.s, [O0 EXCEPT !.ok = 1, !.val = s.ent[k].v, !.mw = <<f.ph>>, !.gated = TRUE,
                                 !.panic = IF a.ld = "panic" THEN 1 ELSE 0,
                                 !.loads = {[fn |-> "Reload", ks |-> <<k>>, olds |-> <<s.ent[k].v>>]}])
        ELSE LET f == Finish(g.s, k, a.ld, a.v, "load")
@@ -279,7 +280,7 @@ DoGet(s, a) ==
                                 !.val = IF a.ld \in {"val", "err"} THEN a.v ELSE -1,
                                 !.err = CASE a.ld = "val" -> "" [] a.ld = "err" -> "err" [] IsNF(a.ld) -> "nf" [] OTHER -> "",
                                 !.panic = IF a.ld = "panic" THEN 1 ELSE 0,
-                                !.mw = <<f.ph>>,
+                                !.mw = <<f.ph>>, !.gated = TRUE,
                                 !.cmp = IF a.ld \in {"val", "err"} THEN @ ELSE @ \ {"val"},
                                 !.loads = {[fn |-> "Load", ks |-> <<k>>, olds |-> <<>>]}])
 
@@ -290,7 +291,7 @@ DoRefresh(s, a) ==
                 rr == CASE a.ld = "val" -> [k |-> k, v |-> a.v, err |-> ""]
                         [] a.ld = "err" -> [k |-> k, v |-> 0, err |-> "err"]
                         [] OTHER        -> [k |-> k, v |-> 0, err |-> "nf"]
-            IN R(f.s, [O0 EXCEPT !.ch = 1, !.mw = <<f.ph>>,
+            IN R(f.s, [O0 EXCEPT !.ch = 1, !.mw = <<f.ph>>, !.gated = TRUE,
                                 !.panic = IF a.ld = "panic" THEN 1 ELSE 0,
                                 !.rrs = IF a.ld = "panic" THEN {} ELSE {rr},
                                 !.cmp = (@ \cup {"ch"}) \cup (IF a.ld = "panic" THEN {} ELSE {"rrs"}),
@@ -340,7 +341,8 @@ DoBulkGet(s, a) ==
                           !.err = IF M # {} /\ ~p1 /\ a.shape = "err" THEN "err" ELSE "",
                           !.panic = IF pan THEN 1 ELSE 0,
                           !.res = hitv \cup loaded,
-                          !.mw = <<c1.ph, c2.ph>>,
+                          !.mw = (IF T = {} THEN <<>> ELSE <<c1.ph>>) \o (IF M = {} \/ p1 THEN <<>> ELSE <<c2.ph>>),
+                          !.gated = TRUE,
                           !.loads = l1 \cup l2,
                           !.cmp = (@ \ {"val"}) \cup (IF pan THEN {} ELSE {"res"})])
 
@@ -363,7 +365,8 @@ DoBulkRefresh(s, a) ==
     IN R(c2.s, [O0 EXCEPT !.ch = 1, !.panic = IF pan THEN 1 ELSE 0,
                           !.rrs = IF pan THEN {} ELSE {rr(k) : k \in Q},
                           !.num = IF pan THEN 0 ELSE 1,
-                          !.mw = <<c1.ph, c2.ph>>, !.early = TRUE,
+                          !.mw = (IF TL = {} THEN <<>> ELSE <<c1.ph>>) \o (IF TR = {} \/ p1 THEN <<>> ELSE <<c2.ph>>),
+                          !.gated = TRUE, !.early = TRUE,
                           !.loads = l1 \cup l2,
                           !.cmp = (@ \cup {"ch"}) \cup (IF pan THEN {} ELSE {"rrs", "num"})])
 
